@@ -29,6 +29,9 @@ M = [
  ('C15-a', 'C15', 'backends/gdb_plugin/plugin.py', "            if message.name == 'get_registry':\n                is_server = not message.sent\n            self.open_connection", "            if message.name == 'get_registry':\n                is_server = message.sent\n            self.open_connection", 1),
  ('C08-a', 'C08', 'backends/libwayland_debug_output/parse.py', "            if line == '':\n                break\n            line = line.strip() # be sure to strip after the empty check", "            line = line.strip()\n            if line == '':\n                break", 1),
  ('C08-b', 'C08', 'backends/libwayland_debug_output/parse.py', '                self.out.unprocessed(str(e))', "                if str(e): self.out.unprocessed(str(e))", 1),
+ ('C07-a', 'C07', 'core/wl/protocol.py', '            if entry.value & arg_value:', '            if entry.value == arg_value:', 1),
+ ('C07-b', 'C07', 'core/wl/protocol.py', 'if not existing or existing.version < interface.version:', 'if not existing or existing.version > interface.version:', 1),
+ ('C07-c', 'C07', 'core/wl/protocol.py', "    enum_interface_name = enum_name_parts[-2]", "    enum_interface_name = enum_name_parts[0]", 1),
  ('C16-a', 'C16', 'frontends/tui/controller.py', 'if delta > 1.0:', 'if delta >= 1.0:', 1),
  ('C16-b', 'C16', 'frontends/tui/controller.py', "                ')')\n            self.last_shown_timestamp = None", "                ')')", 1),
  ('C06-a', 'C06', 'frontends/tui/controller.py', 'if self.current_connection is None or connection == self.current_connection:', 'if True:', 1),
